@@ -207,6 +207,26 @@ func (x *Exec) addObl(kind, name string, st *State, goal *Term, where string) {
 		x.trivial++
 		return
 	}
+	if goal.Op == "forall" && len(goal.Bound) > 0 {
+		// a quantified goal that is an assumption up to the names of the bound variables
+		for _, p := range st.pc {
+			if p.Op != "forall" || len(p.Bound) != len(goal.Bound) {
+				continue
+			}
+			m := map[string]*Term{}
+			okS := true
+			for i, b := range p.Bound {
+				if b.S != goal.Bound[i].S {
+					okS = false
+				}
+				m[b.Name] = goal.Bound[i]
+			}
+			if okS && subst(p.Args[0], m) == goal.Args[0] {
+				x.trivial++
+				return
+			}
+		}
+	}
 	if goal.Op == "and" && (kind == "post" || kind == "inv" || kind == "lemma" || kind == "assert" || (kind == "pre" && len(goal.Args) > 8)) && len(goal.Args) <= 1000 {
 		for i, g := range goal.Args {
 			x.addObl(kind, fmt.Sprintf("%s.c%d", name, i+1), st, g, where)
